@@ -260,6 +260,22 @@ pub fn stream_family(level: u32) -> Vec<Script> {
         let ast = seq(call(p0, "rec0", vec![], st("$s")), fold(Arg::Stream("$s".into()), "i", body));
         out.push(Script { family: "STREAM".into(), name: sname(&["STREAM", "recursive-visit", p0, p1, "seq"]), ast, peers: peers3() });
     }
+    out.extend(route_family(level));
+    out
+}
+
+/// Recursive stream with a variable call target: every value names the peer to ask for the next hop, so the
+/// particle walks the plan (a word over A, B, C, possibly visiting a peer again) while the fold over $s runs.
+pub fn route_family(level: u32) -> Vec<Script> {
+    let mut out = vec![];
+    let plans: Vec<&str> = if level == 0 { vec!["AB", "ABC", "ABA", "ABCA", "ABAB"] } else { vec!["AB", "BA", "ABC", "ABA", "BAB", "ABCA", "ABAB", "ABCB", "ABCAB", "ABCABC", "AABB"] };
+    for plan in plans {
+        let f = format!("route{plan}");
+        let hop = I::Call { peer: PeerRef::Lens("hop".into(), ".peer".into()), svc: "s".into(), func: f.clone(), args: vec![var("hop")], out: st("$s") };
+        let step = xor(I::Mismatch(Arg::Lens("hop".into(), ".done".into()), Arg::Bool(true), Box::new(hop)), I::Null);
+        let ast = seq(call("A", &f, vec![], st("$s")), fold(Arg::Stream("$s".into()), "hop", seq(step, I::Next("hop".into()))));
+        out.push(Script { family: "STREAM".into(), name: sname(&["STREAM", "route", plan]), ast, peers: peers3() });
+    }
     out
 }
 
@@ -344,6 +360,9 @@ pub fn err_contexts() -> Vec<(&'static str, fn(I) -> I)> {
         ("fold-body", |f| seq(call("A", "arr0", vec![], sc("xs")), fold(var("xs"), "k", seq(new("x", new("y", new("e", new("n", new("z", f))))), I::Next("k".into()))))),
         ("new-body", |f| new("$z", f)),
         ("nested-xor", |f| xor(xor(f, I::Fail(FailArg::Arg(Arg::Error(None)))), I::Fail(FailArg::Arg(Arg::Error(None))))),
+        // a call that is still waiting for a value (a join) runs in a sibling par branch before / after the failure
+        ("par-after-waiting-join", |f| par(par(call("B", "slow", vec![], sc("q")), par(call("A", "ga", vec![var("q")], Out::None), call("B", "gb", vec![var("q")], Out::None))), f)),
+        ("par-before-waiting-join", |f| par(f, par(call("B", "slow", vec![], sc("q")), par(call("A", "ga", vec![var("q")], Out::None), call("B", "gb", vec![var("q")], Out::None))))),
     ]
 }
 
